@@ -165,76 +165,7 @@ func checkC09(p *core.Program, r *core.Report) {
 		r.Violation("O9.1", hu.Name, p.Pos(hu.Node.Pos()), "handler has no named http.ResponseWriter parameter")
 		return
 	}
-	// helpers: in-repo functions to which the handler hands its ResponseWriter; each must set the header exactly once on
-	// all its paths before writing
-	helpers := map[*types.Func]bool{}
-	called := map[*types.Func]bool{}
-	ast.Inspect(hu.Node, func(n ast.Node) bool {
-		if call, ok := n.(*ast.CallExpr); ok {
-			if fn, _ := typeutil.Callee(info, call).(*types.Func); fn != nil && inRepoObj(fn) {
-				for _, a := range call.Args {
-					if identVar(info, a) == w {
-						called[fn.Origin()] = true
-					}
-				}
-			}
-		}
-		return true
-	})
-	for fn := range called {
-		u, ok := ix.decls[fn]
-		if !ok {
-			r.Violation("O9.1", hu.Name+": response writer handed to "+fn.FullName(), p.Pos(hu.Node.Pos()), "the ResponseWriter is passed to a function whose body is not available: its effect on the status line is unknown")
-			continue
-		}
-		hw := respWriterParam(u)
-		if hw == nil {
-			continue
-		}
-		g := flow.NewGraph(u)
-		exits, bad := g.CountOnPaths(headerClassifier(u.Pkg.TypesInfo, hw, nil))
-		once := len(bad) == 0 && len(exits) > 0
-		for _, e := range exits {
-			if e.Mask != 2 {
-				once = false
-			}
-		}
-		r.AnalysedFn(u.Name)
-		if once {
-			helpers[fn] = true
-			r.OK("O9.1", u.Name+": sets the status exactly once before writing", p.Pos(u.Node.Pos()), "every path: one WriteHeader, then writes")
-		} else {
-			var ms []string
-			for _, e := range exits {
-				ms = append(ms, fmt.Sprintf("exit %s: counts %03b", p.Pos(e.Pos), e.Mask))
-			}
-			r.Violation("O9.1", u.Name+": sets the status exactly once before writing", p.Pos(u.Node.Pos()), "response helper does not set the status exactly once on every path (or writes before it): %s; writes-before-header at %v", strings.Join(ms, ", "), posList(p, bad))
-		}
-	}
-	r.Count("response helpers", len(helpers))
-	g := flow.NewGraph(hu)
-	exits, bad := g.CountOnPaths(headerClassifier(info, w, helpers))
-	okAll := len(bad) == 0 && len(exits) > 0
-	var ms []string
-	for _, e := range exits {
-		if e.Mask != 2 {
-			okAll = false
-			what := "no status is set"
-			if e.Mask&4 != 0 {
-				what = "the status can be set twice (a sender is not followed by return)"
-			}
-			if e.Mask&1 != 0 && e.Mask&4 != 0 {
-				what = "the status can be set zero or two times"
-			}
-			ms = append(ms, fmt.Sprintf("at the exit %s %s", p.Pos(e.Pos), what))
-		}
-	}
-	for _, b := range bad {
-		ms = append(ms, "body written before the status at "+p.Pos(b))
-	}
-	r.Check(okAll, "O9.1", hu.Name+": exactly one status per request", p.Pos(hu.Node.Pos()), fmt.Sprintf("%d exits, each after exactly one WriteHeader", len(exits)), strings.Join(ms, "; "))
-	r.Count("handler exits", len(exits))
-
+	helpers, g := checkStatusOnce(p, r, ix, hu, w, "O9.1")
 	// ---- O9.2 error table
 	ctors := errorConstructors(p, ix)
 	r.Count("error constructors", len(ctors))
@@ -965,4 +896,81 @@ func checkMarshalArgs(p *core.Program, r *core.Report, ix *funcIndex) {
 	}
 	r.Count("custom-marshalled json.Marshal sites", n)
 	r.Floor("custom-marshalled json.Marshal sites", 4)
+}
+
+// checkStatusOnce decides the exactly-one-status typestate of the handler (O9.1 / O20.4) and returns the response helpers
+// it recognised and the handler's CFG.
+func checkStatusOnce(p *core.Program, r *core.Report, ix *funcIndex, hu flow.FuncUnit, w *types.Var, rule string) (map[*types.Func]bool, *flow.Graph) {
+	info := hu.Pkg.TypesInfo
+	// helpers: in-repo functions to which the handler hands its ResponseWriter; each must set the header exactly once on
+	// all its paths before writing
+	helpers := map[*types.Func]bool{}
+	called := map[*types.Func]bool{}
+	ast.Inspect(hu.Node, func(n ast.Node) bool {
+		if call, ok := n.(*ast.CallExpr); ok {
+			if fn, _ := typeutil.Callee(info, call).(*types.Func); fn != nil && inRepoObj(fn) {
+				for _, a := range call.Args {
+					if identVar(info, a) == w {
+						called[fn.Origin()] = true
+					}
+				}
+			}
+		}
+		return true
+	})
+	for fn := range called {
+		u, ok := ix.decls[fn]
+		if !ok {
+			r.Violation(rule, hu.Name+": response writer handed to "+fn.FullName(), p.Pos(hu.Node.Pos()), "the ResponseWriter is passed to a function whose body is not available: its effect on the status line is unknown")
+			continue
+		}
+		hw := respWriterParam(u)
+		if hw == nil {
+			continue
+		}
+		g := flow.NewGraph(u)
+		exits, bad := g.CountOnPaths(headerClassifier(u.Pkg.TypesInfo, hw, nil))
+		once := len(bad) == 0 && len(exits) > 0
+		for _, e := range exits {
+			if e.Mask != 2 {
+				once = false
+			}
+		}
+		r.AnalysedFn(u.Name)
+		if once {
+			helpers[fn] = true
+			r.OK(rule, u.Name+": sets the status exactly once before writing", p.Pos(u.Node.Pos()), "every path: one WriteHeader, then writes")
+		} else {
+			var ms []string
+			for _, e := range exits {
+				ms = append(ms, fmt.Sprintf("exit %s: counts %03b", p.Pos(e.Pos), e.Mask))
+			}
+			r.Violation(rule, u.Name+": sets the status exactly once before writing", p.Pos(u.Node.Pos()), "response helper does not set the status exactly once on every path (or writes before it): %s; writes-before-header at %v", strings.Join(ms, ", "), posList(p, bad))
+		}
+	}
+	r.Count("response helpers", len(helpers))
+	g := flow.NewGraph(hu)
+	exits, bad := g.CountOnPaths(headerClassifier(info, w, helpers))
+	okAll := len(bad) == 0 && len(exits) > 0
+	var ms []string
+	for _, e := range exits {
+		if e.Mask != 2 {
+			okAll = false
+			what := "no status is set"
+			if e.Mask&4 != 0 {
+				what = "the status can be set twice (a sender is not followed by return)"
+			}
+			if e.Mask&1 != 0 && e.Mask&4 != 0 {
+				what = "the status can be set zero or two times"
+			}
+			ms = append(ms, fmt.Sprintf("at the exit %s %s", p.Pos(e.Pos), what))
+		}
+	}
+	for _, b := range bad {
+		ms = append(ms, "body written before the status at "+p.Pos(b))
+	}
+	r.Check(okAll, rule, hu.Name+": exactly one status per request", p.Pos(hu.Node.Pos()), fmt.Sprintf("%d exits, each after exactly one WriteHeader", len(exits)), strings.Join(ms, "; "))
+	r.Count("handler exits", len(exits))
+
+	return helpers, g
 }
